@@ -300,3 +300,14 @@ def merge_run(run, vec_paths, tokens, n, cap, stride=1, offset=0, timeout=3000):
     j = json.load(open(out))
     j["witness_file"] = wit
     return j
+
+
+HEXVERDICT = re.compile(r'^<<"HEXVERDICT", (".*")>>$', re.M)
+
+
+def hex_judge(run, obs_file):
+    r = tlc(run, "HexJudge", "INIT Init\nNEXT Next\nCHECK_DEADLOCK FALSE\n", workers=1, timeout=900, env={"OBS": obs_file})
+    m = HEXVERDICT.search(r["out"])
+    if not m:
+        raise ToolError("HexJudge did not produce a verdict\n" + r["out"][-3000:])
+    return json.loads(json.loads(m.group(1)))
